@@ -18,7 +18,7 @@ EXPLANATION = ("Optimizer(LBFGS) and Optimizer(LBFGSB) (the real lbfgs_/mcsrch_/
 BOUNDS = ("dimension 1-3 (LBFGS), 1-2 quick / 1-3 thorough (LBFGSB); limits both-sided / one-sided / absent / mixed; history 5 and 1; free inputs in groups of 2-3 (b0, x0_0, limits of "
           "coordinate 0; thorough also the last coordinate), the others and A, tolerance pinned at exact rational base points (1 quick / 2 thorough); the algorithms have no iteration "
           "limit (maxIterations is ignored by both): runs end by their convergence tests (tolerance ~0.25, LBFGSB factr 1e13) after 1-4 iterations, a harness budget of 14 evaluations "
-          "cuts longer ones (reported as exception paths, nothing claimed); path budget 6 quick / 15 thorough per instance and base point; products of more than 60 terms are abstracted to opaque reals")
+          "cuts longer ones (reported as exception paths, nothing claimed); path budget 6 quick / 8 thorough per instance and base point; products of more than 60 terms are abstracted to opaque reals")
 TECHNIQUE = ("Engine S with two additions used by this spec: (1) let-binding: every evaluated point and every operand of a recorded decision gets a variable with its defining equation, so "
              "that path literals are small relations between those variables; (2) each query is first sent to z3 as its linear-arithmetic relaxation over monomials (every non-linear "
              "monomial a fresh real, plus sign axioms) - unsat there is a proof; only the remaining ones go to QF_NRA (nlsat)")
@@ -37,7 +37,7 @@ def instances(tier, seed):
     out = []
     for alg, n, bnd, opts in L:
         out.append(dict(name="%s/n%d/%s%s" % (alg, n, bnd, "/" + opts if opts else ""), args=[alg, str(n), bnd, opts],
-                        paths=6 if tier == "quick" else 15, base_points=1 if tier == "quick" else 2, flips_per_path=5 if tier == "quick" else 8,
+                        paths=6 if tier == "quick" else 8, base_points=1 if tier == "quick" else 2, flips_per_path=5 if tier == "quick" else 6,
                         abstract_big=True, max_terms=60, lra_first=True, seed_check=True, z3_timeout_ms=120000 if tier == "quick" else 300000, flip_timeout_ms=1500))
     return out
 
@@ -256,5 +256,5 @@ def obligations(enc, inst, tr):
                     if _within_budget(enc, hyps, o):
                         obs.append(o)
                     else:
-                        enc.assumptions.append("limits clause left out for a trial point of a line search on a path: neither the linear relaxation nor nlsat (rlimit %d) decides it" % PRE_RLIMIT)
+                        enc.assumptions.append("limits clause left out on a path of %s (%s): neither the linear relaxation nor nlsat (rlimit %d) decides it" % (inst["name"], o.name, PRE_RLIMIT))
     return obs
